@@ -106,12 +106,19 @@ if handler_mod is not None:
         if isinstance(val, dict) and type(val).__name__ == "Registry":
             out["registries"][name] = registry_desc(val)
 
+# import every table module first: a module that mutates an imported table of an older
+# version in place must be visible in the older version's description as well
+for ver, modname in versions.items():
+    try:
+        importlib.import_module(modname)
+    except Exception as exc:
+        out["errors"].append(f"import {modname}: {exc!r}")
+
 for ver, modname in versions.items():
     d = {"module": modname}
     try:
         mod = importlib.import_module(modname)
     except Exception as exc:
-        out["errors"].append(f"import {modname}: {exc!r}")
         out["consts"][ver] = d
         continue
     d["names"] = sorted(n for n in vars(mod) if not n.startswith("__"))
